@@ -256,6 +256,14 @@ impl Specs {
         }
         Ok(())
     }
+    /// one section of another unit's contract file (`file#fn Type::method`): only if this unit has no section of that key itself
+    fn load_one(&mut self, p: &Path, key: &str) -> Result<(), String> {
+        if self.sections.contains_key(key) { return Ok(()); }
+        let mut other = Specs::default(); other.defines = self.defines.clone();
+        other.load(p)?;
+        if let Some(t) = other.sections.get(key) { self.sections.insert(key.to_string(), t.clone()); self.exempt.insert(key.to_string()); }
+        Ok(())
+    }
     pub fn get(&mut self, key: &str) -> Option<String> { let r = self.sections.get(key).cloned(); if r.is_some() { self.used.insert(key.to_string()); } r }
 }
 
@@ -563,6 +571,7 @@ fn emit_fn(cx: &mut Ctx, specs: &mut Specs, em: &mut Emitter, ex: &Extract, file
       if is_res { if let Some(syn::Stmt::Expr(syn::Expr::MethodCall(m), None)) = block.stmts.last_mut() { let n = m.method.to_string(); if (n == "map" || n == "and_then") && m.args.len() == 1 { m.method = syn::Ident::new(&format!("{}__hxres", n), m.method.span()); } } } }
     rw.visit_block_mut(&mut block);
     let nloops = rw.loops;
+    let g6_sites = rw.g6_sites;
     let lifted_closures = std::mem::take(&mut rw.lifted_closures);
     drop(rw);
     if mut_self && !lifted { cx.fire("S1"); let st: syn::Stmt = syn::parse_quote!(let mut this = self;); block.stmts.insert(0, st); }
@@ -716,6 +725,15 @@ fn emit_fn(cx: &mut Ctx, specs: &mut Specs, em: &mut Emitter, ex: &Extract, file
     em.functions.push(emit::FnInfo { name: name.clone(), file: ex.file.clone(), src_line, gen_start: fn_start, gen_end: fn_end, kind: ex.kind.clone(), path: ex.path.clone(), loops: nloops, captured: captured.iter().map(|c| c.0.clone()).collect() });
     for (id, wh) in probes { em.probes.push((id, name.clone(), wh)); }
     em.raw("");
+    // G6 sites are facts about the shape of the source: each is also stated by a marker function of its own, so that it is still
+    // reported when the body itself has to be left out
+    for k in 0..g6_sites {
+        let mname = format!("{}__guard_across_await_site{}", name.replace("::", "__").replace(|c: char| !(c.is_ascii_alphanumeric() || c == '_'), "_"), k);
+        let st = em.line();
+        em.raw(&format!("pub fn {}() {{ hx_guard_shape_marker(); }}   // the lock guard of `{}` that stays alive across an await", mname, name));
+        em.functions.push(emit::FnInfo { name: mname, file: ex.file.clone(), src_line, gen_start: st, gen_end: em.line(), kind: "fn".into(), path: ex.path.clone(), loops: 0, captured: vec![] });
+        em.raw("");
+    }
     // ---- what a lifted loop future captures (its parameters ARE its capture list): obligations on their joined ownership view
     if lifted { if let Some(cl) = specs.get(&format!("captures {}", name)) {
         let ps: Vec<String> = params.iter().filter(|p| !p.starts_with("Tracked(")).map(|p| p.trim_start_matches("mut ").to_string()).collect();
@@ -1022,8 +1040,16 @@ fn emit_lifted_body(cx: &mut Ctx, specs: &mut Specs, em: &mut Emitter, gens: &[&
     rw.gen_idents = { let cl = closure_generics(gens, rw.cx); gens.iter().flat_map(|g| g.params.iter().filter_map(|p| if let syn::GenericParam::Type(t) = p { Some(t.ident.to_string()) } else { None }).collect::<Vec<_>>()).filter(|n| !cl.contains_key(n)).collect() };
     rw.visit_block_mut(&mut block);
     let nloops = rw.loops;
+    let g6_sites = rw.g6_sites;
     let more = std::mem::take(&mut rw.lifted_closures);
     drop(rw);
+    for k in 0..g6_sites {
+        let mname = format!("{}__guard_across_await_site{}", lc.name, k);
+        let st = em.line();
+        em.raw(&format!("pub fn {}() {{ hx_guard_shape_marker(); }}   // the lock guard of `{}` that stays alive across an await", mname, lc.name));
+        em.functions.push(emit::FnInfo { name: mname, file: file.to_string(), src_line: lc.line, gen_start: st, gen_end: em.line(), kind: "fn".into(), path: lc.name.clone(), loops: 0, captured: vec![] });
+        em.raw("");
+    }
     let mut probes: Vec<(usize, String)> = vec![];
     if cx.probe { rewrite::insert_probes(&mut block, &lc.name, em, &mut probes); }
     if nloops > 0 { em.raw("#[verifier::exec_allows_no_decreases_clause]"); }
@@ -1266,7 +1292,7 @@ fn rename_ident(ts: TokenStream, from: &str, to: &str) -> TokenStream {
 
 fn main() {
     let args: Vec<String> = std::env::args().collect();
-    let mut unit_path = None; let mut repo = PathBuf::from("/repo"); let mut out = None; let mut map = None; let mut probe = false; let mut root = PathBuf::from("."); let mut dropbody: BTreeSet<String> = BTreeSet::new(); let mut params: BTreeMap<String, Vec<String>> = BTreeMap::new(); let mut dump_params_to: Option<PathBuf> = None;
+    let mut unit_path = None; let mut repo = PathBuf::from("/repo"); let mut out = None; let mut map = None; let mut probe = false; let mut root = PathBuf::from("."); let mut dropbody: BTreeSet<String> = BTreeSet::new(); let mut params: BTreeMap<String, Vec<String>> = BTreeMap::new(); let mut dump_params_to: Option<PathBuf> = None; let mut extra_extracts: Vec<String> = vec![]; let mut extra_specs: Vec<String> = vec![]; let mut extra_traced: Vec<String> = vec![]; let mut extra_types: Vec<String> = vec![]; let mut extra_eager: Vec<String> = vec![];
     let mut i = 1;
     while i < args.len() {
         match args[i].as_str() {
@@ -1279,18 +1305,35 @@ fn main() {
             "--params" => { i += 1; if let Ok(t) = std::fs::read_to_string(&args[i]) { // a flat JSON object {"key": ["a", "b"], ..} written by --dump-params
                     for line in t.lines() { let line = line.trim().trim_end_matches(','); if let Some((k, v)) = line.split_once("\": [") { let k = k.trim().trim_start_matches('"').to_string(); let v: Vec<String> = v.trim_end_matches(']').split(',').map(|x| x.trim().trim_matches('"').to_string()).filter(|x| !x.is_empty()).collect(); params.insert(k, v); } } } }
             "--dump-params" => { i += 1; dump_params_to = Some(PathBuf::from(&args[i])); }
+            "--extra-extract" => { i += 1; extra_extracts.push(args[i].clone()); }
+            "--extra-spec" => { i += 1; extra_specs.push(args[i].clone()); }
+            "--extra-type" => { i += 1; extra_types.push(args[i].clone()); }
+            "--extra-traced" => { i += 1; extra_traced.push(args[i].clone()); }
+            "--extra-eager" => { i += 1; extra_eager.push(args[i].clone()); }
             "--dropbody" => { i += 1; for n in args[i].split(',') { if !n.trim().is_empty() { dropbody.insert(n.trim().to_string()); } } }
             other => { eprintln!("hx: unknown argument {}", other); std::process::exit(2); }
         }
         i += 1;
     }
     let unit_path = unit_path.expect("--unit");
-    let unit = match Unit::load(&unit_path) { Ok(u) => u, Err(e) => { eprintln!("hx: {}", e); std::process::exit(2); } };
+    let mut unit = match Unit::load(&unit_path) { Ok(u) => u, Err(e) => { eprintln!("hx: {}", e); std::process::exit(2); } };
+    // automatic cross-unit stubs requested by the driver: a function another unit proves, used here by its contract only
+    for x in &extra_extracts {
+        let w: Vec<&str> = x.split_whitespace().collect();
+        if w.len() >= 3 { let mut opts = BTreeMap::new(); for kv in &w[3..] { if let Some((k, v)) = kv.split_once('=') { opts.insert(k.to_string(), v.to_string()); } }
+            if !unit.extracts.iter().any(|e| e.path == w[2] && e.file == w[1]) { unit.extracts.push(unit::Extract { kind: w[0].to_string(), file: w[1].to_string(), path: w[2].to_string(), opts }); } }
+    }
+
+    for t in &extra_types { if let Some((a, b)) = t.split_once("=>") { let pair = (a.trim().to_string(), b.trim().to_string()); if !unit.types.iter().any(|(x, _)| x == &pair.0) { unit.types.push(pair); } } }
+    for t in &extra_traced { unit.traced.insert(t.clone()); }
+    for t in &extra_eager { unit.eager.insert(t.clone()); unit.traced.insert(t.clone()); }
     let mut cx = Ctx { unit, repo, probe, rules: BTreeMap::new(), errors: vec![], soft: vec![], uncontracted: vec![], consts_done: BTreeSet::new(), params: params.clone(), dump_params: BTreeMap::new(), cur_fn: String::new(), dropbody: dropbody.clone(), dropped: vec![], dropped_notes: vec![], files: BTreeMap::new(), file_ranges: BTreeMap::new(), local_mods: BTreeSet::new(), pending: vec![] };
     let mut specs = Specs::default();
     specs.defines = cx.unit.defines.clone();
     for s in cx.unit.specs.clone() { if let Err(e) = specs.load(&root.join(&s)) { eprintln!("hx: {}", e); std::process::exit(2); } }
     for s in cx.unit.specrefs.clone() { if let Err(e) = specs.load_ref(&root.join(&s)) { eprintln!("hx: {}", e); std::process::exit(2); } }
+    // `--extra-spec file#fn Type::method`
+    for x in &extra_specs { if let Some((f, key)) = x.split_once('#') { if let Err(e) = specs.load_one(&root.join(f), key) { eprintln!("hx: {}", e); std::process::exit(2); } } }
     let mut em = Emitter::new();
     em.raw("// GENERATED by /verif/hx from the current working tree of /repo — do not edit.");
     em.raw("#![allow(unused_imports, unused_variables, unused_mut, dead_code, non_snake_case, unused_parens, unused_braces, unreachable_code, unused_assignments, non_camel_case_types, unused_must_use)]");
